@@ -867,17 +867,17 @@ EXPECTED_SHAPE = {'_flush_exception': 'if( flush ){ try{ do_close=do_close flush
  'send_continue': 'False R:request .expect_continue= len() with(outbuf_lock){ R:outbufs 1 append() '
                   'R:current_outbuf_count W:current_outbuf_count R:total_outbufs_len W:total_outbufs_len '
                   'True W:sent_continue do_close=do_close _flush_some() }',
- 'service': 'R:requests 0 if( .error ){ } else{ } try{ if( R:connected ){ service() } else{ True '
-            '.close_on_finish= } } except(ClientDisconnected){ True .close_on_finish= } except(Exception){ '
-            'if( not ){ if( ){ } else{ } .error= .version= try{ } except(KeyError){ } try{ service() } '
-            'except(ClientDisconnected){ True .close_on_finish= } } else{ True .close_on_finish= } } if( '
-            '.close_on_finish ){ with(requests_lock){ True W:close_when_flushed for( R:requests ){ close() } '
-            'W:requests } } else{ if( R:requests len() Gt 1 ){ _flush_outbufs_below_high_watermark() } if( '
-            'R:current_outbuf_count Gt 0 ){ .outbuf_high_watermark W:current_outbuf_count } close() '
-            'with(requests_lock){ 0 R:requests pop() if( and( R:connected , R:requests , ) ){ add_task() } '
-            'else{ if( and( R:connected , R:request IsNot None , R:request .expect_continue , R:request '
-            '.headers_finished , not R:sent_continue , ) ){ do_close=False send_continue() } } } } if( '
-            'R:connected ){ pull_trigger() } W:last_activity',
+ 'service': 'R:requests 0 if( .error ){ } else{ } try{ if( and( R:connected , not R:will_close , ) ){ '
+            'service() } else{ True .close_on_finish= } } except(ClientDisconnected){ True .close_on_finish= '
+            '} except(Exception){ if( not ){ if( ){ } else{ } .error= .version= try{ } except(KeyError){ } '
+            'try{ service() } except(ClientDisconnected){ True .close_on_finish= } } else{ True '
+            '.close_on_finish= } } if( .close_on_finish ){ with(requests_lock){ True W:close_when_flushed '
+            'for( R:requests ){ close() } W:requests } } else{ if( R:requests len() Gt 1 ){ '
+            '_flush_outbufs_below_high_watermark() } if( R:current_outbuf_count Gt 0 ){ '
+            '.outbuf_high_watermark W:current_outbuf_count } close() with(requests_lock){ 0 R:requests pop() '
+            'if( and( R:connected , R:requests , ) ){ add_task() } else{ if( and( R:connected , R:request '
+            'IsNot None , R:request .expect_continue , R:request .headers_finished , not R:sent_continue , ) '
+            '){ do_close=False send_continue() } } } } if( R:connected ){ pull_trigger() } W:last_activity',
  'writable': 'or( R:total_outbufs_len Gt 0 , R:will_close , R:close_when_flushed , ) return',
  'write_soon': 'if( not R:connected ){ raise(ClientDisconnected) } if( ){ with(outbuf_lock){ '
                '_flush_outbufs_below_high_watermark() if( not R:connected ){ raise(ClientDisconnected) } '
